@@ -53,12 +53,14 @@ def main():
         jobs = int(args[1])
         args = args[2:]
     names = sorted(n for n in os.listdir(SEEDED) if os.path.exists(os.path.join(SEEDED, n, "patch.diff")))
-    if args:
-        names = [n for n in names if any(n.startswith(a) for a in args)]
     results = {}
     path = os.path.join(SEEDED, "REGRESSION.json")
     if os.path.exists(path):
         results = json.load(open(path))
+    if args == ["--missing"]:
+        names = [n for n in names if n not in results]
+    elif args:
+        names = [n for n in names if any(n.startswith(a) for a in args)]
     slots = list(range(jobs))
     import queue
     q = queue.Queue()
